@@ -111,12 +111,69 @@ def one_schema(args):
     return dict(si=si, cases=res, fbs=fbs, tables=tabs, unions=uns)
 
 
+def vtcache_stage(ctx, rt, n):
+    """flatcc_builder_create_cached_vtable called directly (h_build `vtcache`): vtables of one size that differ in exactly one
+    entry (every position, the last included), forced into one hash bucket. Oracle: two calls return the same reference only
+    for byte-identical vtables (a table pointed at another vtable reads its fields from the wrong place); tie: references == model."""
+    r = random.Random(ctx.seed * 7919 + 3)
+    h_build = rt if isinstance(rt, str) else build_harness(ctx, "h_build", [os.path.join(VERIF, "harness/h_build.c")], rt)
+    lines, items_of = [], []
+    for _ in range(n):
+        ne = r.randint(1, 14)
+        base = [2 * (ne + 2), r.randrange(4, 120, 2)] + [r.choice([0, 4, 4, 6, 8, 12, 16, 20, 24]) for _ in range(ne)]
+        if base[-1] == 0: base[-1] = 4
+        h0 = r.randrange(1 << 32)
+        items = [(h0, base)]
+        for _ in range(r.randint(2, 8)):
+            c = r.random()
+            src = list(r.choice(items)[1])
+            if c < 0.45:      # one entry differs; the last one as often as all the others together
+                k = len(src) - 1 if r.random() < 0.5 else r.randrange(1, len(src))
+                src[k] = src[k] + r.choice([2, 4, -2]) if src[k] + 0 >= 4 else 4
+            elif c < 0.6:     # a shorter / longer vtable with a common prefix
+                if len(src) > 3 and r.random() < 0.5: src = src[:-1]
+                else: src = src + [r.choice([4, 8, 12])]
+                src[0] = 2 * len(src)
+            hc = r.random()
+            h = h0 if hc < 0.6 else (h0 & 0xfc000000) | r.randrange(1 << 26) if hc < 0.85 else r.randrange(1 << 32)
+            items.append((h, src))
+        lines.append("vtcache " + ",".join("%d:%s" % (h, struct.pack("<%dH" % len(v), *v).hex()) for h, v in items))
+        items_of.append(items)
+    rc, c_out, err = run_parallel(h_build, lines, 8)
+    rc, m_out, _ = run_parallel(FMODEL, lines, 8)
+    fail, tie = None, False
+    stats = dict(lines=len(lines), calls=sum(len(i) for i in items_of), reused=0, last_entry_pairs=0)
+    for l, items, co, mo in zip(lines, items_of, c_out, m_out):
+        refs = co.split(",")
+        if co.startswith("<crash") or len(refs) != len(items):
+            fail = fail or {"kind": "property-fails-on-implementation", "why": "create_cached_vtable crashed / failed", "op": l, "c_output": co[:500]}; continue
+        first = {}
+        for (h, v), ref in zip(items, refs):
+            if ref in first:
+                stats["reused"] += 1
+                if first[ref] != v:
+                    fail = fail or {"kind": "property-fails-on-implementation", "op": l, "c_output": co,
+                                    "why": "create_cached_vtable returned the reference of vtable %s for the different vtable %s: the table's fields are read from the wrong offsets" % (first[ref], v)}
+            else: first[ref] = v
+        vs = [v for _, v in items]
+        stats["last_entry_pairs"] += sum(1 for a in vs for b in vs if a[:-1] == b[:-1] and a[-1] < b[-1])
+    if not fail:
+        for l, co, mo in zip(lines, c_out, m_out):
+            if co != mo:
+                fail = {"kind": "correspondence-broken", "op": l, "c_output": co, "model_output": mo}; tie = True; break
+    return stats, fail, tie
+
+
 def run(ctx):
     ths = proof_stage(ctx)
     if ths is None:
         finish(ctx, [])
     flatcc, _ = build_flatcc(ctx)
     rt = build_runtime_objs(ctx)
+    vt_stats, vt_fail, vt_tie = vtcache_stage(ctx, rt, 400 if ctx.quick() else 6000)
+    if vt_fail:
+        if vt_tie: vt_fail["theorems_no_longer_tied"] = [t["name"] for t in ths]
+        violation(ctx, "vtcache_%d.json" % ctx.seed, vt_fail, no_failing_input=vt_tie)
     nschema = 48 if ctx.quick() else 600
     ncase = 12 if ctx.quick() else 18
     jobs = [(ctx.work, flatcc, rt, ctx.seed, si, ncase) for si in range(-1, nschema)]
@@ -165,7 +222,9 @@ def run(ctx):
                 "scalars (no NaN), empty/long strings with NUL, shared strings/tables, fields added out of id order; built through the generated API in 3 styles "
                 "(bottom-up create + add; field-level create / nested start-end / start_as_root; push/append/extend/truncate + struct start/end), plain, "
                 "size-prefixed, typed roots, add vs force_add. Oracles: generated-reader dump == tree (defaults, is_present, null), independent decoder == tree, "
-                "generated verifier accepts, bytes == Lean model build.",
+                "generated verifier accepts, bytes == Lean model build. Unit stage: create_cached_vtable called directly with vtables differing in one "
+                "entry (every position) forced into one hash bucket: same reference only for identical bytes; references == model.",
+        "vtable_cache_unit": vt_stats,
         "schemas": len(results), "styles": styles, "force_add_cases": sum(1 for c in cases if c["meta"]["force"]),
         "with_size": sum(1 for c in cases if c["meta"]["ws"]), "typed": sum(1 for c in cases if c["meta"]["typed"]),
         "traces_validated_against_impl": len(good), "correspondence_disagreements": len(corr), "spec_oracle_failures": len(spec)})
